@@ -7,6 +7,7 @@ import N2V.Lemmas.SchedCycle
 import N2V.Model.Run
 import N2V.Lemmas.LoadSched
 import N2V.Lemmas.SchedWantTerm
+import N2V.Lemmas.SchedAcyclic
 namespace N2V.C06
 open N2V N2V.Sched
 
@@ -194,5 +195,27 @@ def exRepeated : Graph :=
 
 example : (match want exRepeated (init [] none) 0 with | .ok _ _ => true | _ => false) = true := by
   decide
+
+/-- **A dependency cycle among the requested steps is always diagnosed** (completeness of the
+    cycle check).  `want_build` marks a build only after its ordering inputs have been walked, so
+    whenever `Work::want_file f` SUCCEEDS from a state in which nothing is marked yet, no build
+    that `f` needs - through explicit, implicit, order-only or validation inputs - is its own
+    ordering ancestor.  Contrapositive: if a step the target needs lies on a cycle of ordering
+    edges, `want_file` does not succeed; it cannot run out of fuel (`want_phase_terminates`), so it
+    returns the `dependency cycle:` error (`cycle_diagnostic_sound`: a real one), and then nothing
+    runs (`want_error_runs_nothing`).  A cycle closed only by a validation edge is not an ordering
+    cycle and is accepted. -/
+theorem cycle_among_requested_steps_is_diagnosed (g : Graph) (s s' : S) (f : Nat) (hfresh : ∀ b, s.st b = .unknown)
+    (h : want g s f = .ok () s') : ∀ b, Needs g f b → ¬ Anc g b b := by
+  have hc0 : ClosedX g s [] := fun b _ hb => absurd (hfresh b) hb
+  obtain ⟨_, hmarked⟩ := want_complete g s s' f hc0 h
+  have hai := want_acyclic g s s' f (ai_of_unmarked g s hfresh) h
+  intro b hn
+  exact hai.acyc b (hmarked b hn)
+
+/-- The same along a sequence of successful `want_file`s (several targets, defaults, every file):
+    the invariant is kept from one call to the next. -/
+theorem cycle_free_ground_is_kept (g : Graph) (s s' : S) (f : Nat) (hai : AI g s) (h : want g s f = .ok () s') :
+    AI g s' := want_acyclic g s s' f hai h
 
 end N2V.C06
